@@ -5,6 +5,7 @@
 #[path = "../../harness/src/engine.rs"]
 mod engine;
 mod c17;
+mod c18;
 
 use engine::{load_known, replay_property, run_property, RunEnv, Tier};
 
@@ -70,6 +71,7 @@ fn main() {
     });
     let prop = match id.as_str() {
         "C17" => c17::property(),
+        "C18" => c18::property(),
         _ => {
             eprintln!("property {id} has no token-factory part");
             std::process::exit(2);
